@@ -133,6 +133,11 @@ def framing(ctx, lengths, compressed=False, encrypted=False, sentinel=False,
                 conds.append(z3.BoolVal(False))
                 break
             if cls is Known:
+                if type(q) is not Known or not hasattr(q, 'data'):
+                    ctx.notes['got'] = '%s id=%r' % (type(q).__name__,
+                                                     getattr(q, 'id', None))
+                    conds.append(z3.BoolVal(False))
+                    continue
                 conds += [z3.BoolVal(type(q) is Known),
                           items_eq(bytes_items(q.data), bytes_items(data))]
             else:
